@@ -9,8 +9,8 @@ one() {
   patch=$1; name=$2; target=$3
   S=$(mktemp -d /tmp/gpmx.XXXXXX)
   mkdir -p $S/repo $S/ev
-  git -C /repo archive HEAD | tar -x -C $S/repo
-  if ! (cd $S/repo && git apply --whitespace=nowarn "$patch" 2>/dev/null); then echo "$name target=$target APPLY-FAIL"; rm -rf $S; return; fi
+  rmdir $S/repo; git clone -q --shared /repo $S/repo
+  if ! (cd $S/repo && git apply --3way --whitespace=nowarn "$patch" >/dev/null 2>&1); then echo "$name target=$target APPLY-FAIL"; rm -rf $S; return; fi
   det=""; err=""
   for p in $PROPS; do
     $V/bin/goparcheck -property $p -tier ${TIER:-quick} -repo $S/repo -verif $V -evidence-dir $S/ev >/dev/null 2>&1; rc=$?
